@@ -15,7 +15,8 @@
  *        producers write, the single consumer calls read until it has seen <reads> items.
  *   fine 0|1      (abq/dbuf) register the queue's data fields too: every access becomes an
  *                 event (used for the lock-coverage check; no model replay at this granularity)
- *   sched random <seed> | pct <seed> <depth> | replay <tokens...> | prefix <tokens...>
+ *   sched random <seed> | pct <seed> <depth> | replay <tokens...> | prefix <tokens...> | opseq <tids...>
+ *                 (opseq: each token runs that thread for one whole write / read / put / take, then as prefix)
  *                 (prefix: replay, then continue non-preemptively; prints "#enabled <mask per step>")
  *   spurious <cas_permille> <cv_permille> [<futex_permille>]   (futex: a parked futex wait returns EINTR)
  *   run           -> schedule, events, [state lines], end, outcome
@@ -74,6 +75,7 @@ static void chan_writer(void *arg)
 			if (g_tries && attempts >= g_tries) break;
 			sched_yield();
 		}
+		vs_op_done();
 	}
 }
 
@@ -83,10 +85,11 @@ static void chan_reader(void *arg)
 	for (int i = 0; i < g_reads; i++) {
 		void *p = muggle_channel_read(&C);
 		int id = id_of(p);
-		if (id < 0) { g_bad++; vs_note("read=BAD %d", id); g_delivered[g_ndelivered++] = id; continue; }
+		if (id < 0) { g_bad++; vs_note("read=BAD %d", id); g_delivered[g_ndelivered++] = id; vs_op_done(); continue; }
 		int s = ((payload_t *)p)->stamp;
 		g_delivered[g_ndelivered++] = id;
 		vs_note("read=m%d stamp=%d", id, s);
+		vs_op_done();
 	}
 }
 
@@ -99,6 +102,7 @@ static void abq_producer(void *arg)
 		P[id].stamp = 100 + id;
 		int rc = muggle_array_blocking_queue_put(&Q, &P[id]);
 		vs_note("put=%s m%d", rc == MUGGLE_OK ? "ok" : "err", id);
+		vs_op_done();
 	}
 }
 
@@ -108,9 +112,10 @@ static void abq_consumer(void *arg)
 	for (int i = 0; i < g_k[c]; i++) {
 		void *p = muggle_array_blocking_queue_take(&Q);
 		int id = id_of(p);
-		if (id < 0) { g_bad++; vs_note("take=BAD %d", id); continue; }
+		if (id < 0) { g_bad++; vs_note("take=BAD %d", id); vs_op_done(); continue; }
 		int s = ((payload_t *)p)->stamp;
 		vs_note("take=m%d stamp=%d", id, s);
+		vs_op_done();
 	}
 }
 
@@ -130,6 +135,7 @@ static void dbuf_producer(void *arg)
 			if (g_tries && attempts >= g_tries) break;
 			sched_yield();
 		}
+		vs_op_done();
 	}
 }
 
@@ -150,6 +156,7 @@ static void dbuf_consumer(void *arg)
 			vs_note("item=m%d stamp=%d", id, s);
 			got++;
 		}
+		vs_op_done();
 	}
 }
 
@@ -231,7 +238,7 @@ static int setup(void)
 	return 0;
 }
 
-static int g_pol; static uint64_t g_seed; static int g_depth; static char g_replay[1 << 17];
+static int g_pol; static uint64_t g_seed; static int g_depth; static char g_replay[1 << 18];
 static int g_sp_cas, g_sp_cv, g_sp_fx;
 
 static int parse_wl(const char *s)
@@ -310,7 +317,7 @@ static void vh_op(int argc, char **argv)
 	if (!strcmp(argv[0], "sched") && argc >= 2) {
 		if (!strcmp(argv[1], "random") && argc == 3) { g_pol = 0; g_seed = vh_ull(argv[2]); }
 		else if (!strcmp(argv[1], "pct") && argc == 4) { g_pol = 1; g_seed = vh_ull(argv[2]); g_depth = atoi(argv[3]); }
-		else if (!strcmp(argv[1], "replay") || !strcmp(argv[1], "prefix")) { g_pol = !strcmp(argv[1], "prefix") ? 3 : 2; g_replay[0] = 0; size_t o = 0;
+		else if (!strcmp(argv[1], "replay") || !strcmp(argv[1], "prefix") || !strcmp(argv[1], "opseq")) { g_pol = !strcmp(argv[1], "prefix") ? 3 : !strcmp(argv[1], "opseq") ? 4 : 2; g_replay[0] = 0; size_t o = 0;
 			for (int i = 2; i < argc && o + 16 < sizeof g_replay; i++) o += snprintf(g_replay + o, sizeof g_replay - o, "%s ", argv[i]); }
 		else { printf("bad-op\n"); return; }
 		printf("ok\n");
@@ -326,11 +333,12 @@ static void vh_op(int argc, char **argv)
 		if (g_pol == 0) vs_policy_random(g_seed);
 		else if (g_pol == 1) vs_policy_pct(g_seed, g_depth);
 		else if (g_pol == 3) { vs_policy_prefix(g_replay); vs_trace_enabled(1); }
+		else if (g_pol == 4) { vs_policy_opseq(g_replay); vs_trace_enabled(1); }
 		else vs_policy_replay(g_replay);
 		vs_set_spurious(g_sp_cas, g_sp_cv);
 		vs_set_spurious_futex(g_sp_fx);
 		vs_set_max_steps(6000);
-		vs_run();
+		if (vs_run() != VS_OK) vh_request_restart();
 		vs_print(stdout);
 		if (g_kind == K_CHAN) {
 			/* accepted = delivered ++ what is still unread in the ring (from the struct) */
